@@ -211,6 +211,7 @@ def check_text(run, stats, replay, jobs):
                             "cases": n, "disagreements": bad,
                             "separator_format_lossy_tables": sum(1 for r in recs if not r["to"]["sep_ok"])}
     total += n
+    del recs
     # typed tables x output paths on the real code
     recs, res = jobs.get("io")
     n, bad = replay(run, recs, dispatch, "TableText/io")
